@@ -89,9 +89,12 @@ def mon_c05(rec, recprob, F, params):
     out = []
     lb, ub = F.var_lb, F.var_ub
     seen = set()
+    # the derivative check is exempt only when the user opted in
+    opted_in = getattr(params.deriv_check, "value", 0) != 0
+    exempt = EXEMPT if opted_in else tuple(e for e in EXEMPT if not e.startswith("deriv_check"))
     for kind, x, chain in recprob.calls:
         if (x < lb).any() or (x > ub).any():
-            if chain and any(any(c.startswith(e) or e in c for e in EXEMPT) for c in chain):
+            if chain and any(any(c.startswith(e) or e in c for e in exempt) for c in chain):
                 continue
             site = next((c for c in (chain or []) if not c.startswith(("eval.py", "iterate.py", "scale.py:", "cons_problem.py", "implicit_func.py"))), "?")
             sig = f"C05|eval_out_of_box|{site}"
@@ -235,7 +238,7 @@ def mon_c15(rec, F, weights, params, control, fixed_check=False):
             z = t.it_out
             if (z.x < P.var_lb).any() or (z.x > P.var_ub).any():
                 add(V("C15|accepted_out_of_box", f"accepted point {z.x.tolist()} leaves the box"))
-            if control == "Fixed" and fixed_check and t.it_out is not t.it_in:
+            if control == "Fixed" and fixed_check and t.it_out is not t.it_in and np.dtype(params.dtype) == np.dtype(np.float64):
                 if T is None:
                     T = reftrans(F, weights)
                 R0 = O.RefPoint(T, t.it_in.x, t.it_in.y)
@@ -262,7 +265,10 @@ def mon_c15(rec, F, weights, params, control, fixed_check=False):
                 A = O.implicit_active(T, p)
                 with np.errstate(all="ignore"):
                     res = float(np.linalg.norm(O.implicit_value(T, (t.it_in.x, t.it_in.y), R, t.rho, t.dt, A)))
-                if not (res <= params.newton_tol * (1 + 1e-6) + 1e-13 * max(1.0, float(np.max(np.abs(p))))):
+                single = np.dtype(params.dtype) == np.dtype(np.float32)
+                # in single precision the code's own residual (computed in float32) is what is compared with newton_tol: allow its rounding
+                slack = (4.0 * float(np.finfo(np.float32).eps) if single else 1e-13) * max(1.0, float(np.max(np.abs(p))), float(np.max(np.abs(z.y), initial=0.0)))
+                if not (res <= params.newton_tol * (1 + 1e-6) + slack):
                     add(V("C15|exact_residual", f"exact control accepted a point with implicit-Euler residual {res:.3e} > newton_tol {params.newton_tol}"))
     return out
 
